@@ -183,7 +183,7 @@ class DirectMethod:
 
     def solver(self, solver, solver_options={}):
         self._solver = solver
-        self._solver_options = solver_options
+        self._solver_options = dict(solver_options)
 
     def show_infeasibilities(self, *args):
         self.opti.debug.show_infeasibilities(*args)
